@@ -158,6 +158,8 @@ def run(ctx):
     c035(ctx)
     c036(ctx)
     c037(ctx)
+    from .c05 import tmp_private
+    tmp_private(ctx, 'C03.8')
     # ---------------------------------------------------------------- C03.1
     serde_table.check(ctx)
 
